@@ -124,7 +124,7 @@ for sid,(prop,what,needs,ran,checks) in M4.items():
     try: conf=json.load(open(d+'/confirm.json'))
     except Exception: pass
     base=None
-    try: base=subprocess.check_output(["git","-C","/tmp/wt_%s"%sid,"rev-parse","--short","HEAD"],text=True).strip()
+    try: base=subprocess.check_output(["git","-C","/tmp/wt_%s"%sid,"rev-parse","--short","HEAD"],text=True,stderr=subprocess.DEVNULL).strip()
     except Exception: pass
     old={}
     try: old=json.load(open(d+'/meta.json'))
